@@ -35,10 +35,10 @@ fn hist<const T: usize, const NC: usize, const HALF: usize, const N: usize, cons
             assert!(out[abs] == exp, "output = union of matched k-mer windows");
         } }
     }
-    kani::cover!(n == 2 && c0 == c1 && p1 <= p0 + HALF, "any: two overlapping windows on one contig");
-    kani::cover!(n == 2 && c0 == c1 && p1 > p0 + 2 * HALF + 1, "any: two windows with a gap between them");
-    kani::cover!(n == 2 && c1 > c0, "any: windows on two contigs");
-    kani::cover!(n == 1 && REP && r0 + 1 == l.starts[c0] + p0, "any: repeat coordinate on a flank");
+    kani::cover!(n == 2 && c0 == c1 && p1 <= p0 + HALF, "two overlapping windows on one contig");
+    kani::cover!(n == 2 && c0 == c1 && p1 > p0 + 2 * HALF + 1, "two windows with a gap between them");
+    kani::cover!(n == 2 && c1 > c0, "windows on two contigs");
+    kani::cover!(n == 1 && REP && r0 + 1 == l.starts[c0] + p0, "repeat coordinate on a flank");
     std::mem::forget(w);
 }
 #[kani::proof]
